@@ -171,6 +171,23 @@ class _Canon(ast.NodeTransformer):
         node.args = self._splice(node.args)
         return node
 
+    def visit_UnaryOp(self, node):
+        self.generic_visit(node)
+        # N16: `not a is b` -> `a is not b`, `not a in b` -> `a not in b` (exact for identity and membership)
+        flip = {ast.Is: ast.IsNot, ast.IsNot: ast.Is, ast.In: ast.NotIn, ast.NotIn: ast.In}
+        if isinstance(node.op, ast.Not) and isinstance(node.operand, ast.Compare) and len(node.operand.ops) == 1 and type(node.operand.ops[0]) in flip:
+            c = node.operand
+            return _loc(ast.Compare(left=c.left, ops=[flip[type(c.ops[0])]()], comparators=c.comparators), node)
+        return node
+
+    def visit_IfExp(self, node):
+        self.generic_visit(node)
+        if isinstance(node.test, ast.Constant) and (isinstance(node.test.value, bool) or node.test.value is None):
+            return node.body if node.test.value else node.orelse         # N12 for conditional expressions
+        if isinstance(node.test, ast.UnaryOp) and isinstance(node.test.op, ast.Not):
+            return _loc(ast.IfExp(test=node.test.operand, body=node.orelse, orelse=node.body), node)     # `a if not c else b` -> `b if c else a`
+        return node
+
     def visit_With(self, node):
         self.generic_visit(node)
         # `with a: with b: body`  ->  `with a, b: body`
@@ -250,6 +267,11 @@ def _append_loops(fn):
                         and isinstance(last.value.func.value, ast.Name) and last.value.func.value.id == acc and len(last.value.args) == 1 and not last.value.keywords):
                     continue
                 defs = lp.body[:-1]
+                # leading `if c: continue` guards become the comprehension's filter
+                filters = []
+                while defs and isinstance(defs[0], ast.If) and not defs[0].orelse and len(defs[0].body) == 1 and isinstance(defs[0].body[0], ast.Continue) and is_pure(defs[0].test):
+                    filters.append(ast.UnaryOp(op=ast.Not(), operand=defs[0].test))
+                    defs = defs[1:]
                 if not all(isinstance(d, ast.Assign) and len(d.targets) == 1 and isinstance(d.targets[0], ast.Name) and is_pure(d.value) for d in defs):
                     continue
                 locs = [d.targets[0].id for d in defs]
@@ -269,9 +291,125 @@ def _append_loops(fn):
                         v = _Rename(dict(env)).visit(v)
                     env[d.targets[0].id] = v
                 e = _Rename(dict(env)).visit(copy.deepcopy(last.value.args[0])) if env else copy.deepcopy(last.value.args[0])
-                comp = ast.ListComp(elt=e, generators=[ast.comprehension(target=lp.target, iter=lp.iter, ifs=[], is_async=0)])
+                comp = ast.ListComp(elt=e, generators=[ast.comprehension(target=lp.target, iter=lp.iter, ifs=filters, is_async=0)])
                 blk[i - 1:i + 1] = [_loc(ast.Assign(targets=[a.targets[0]], value=comp), a)]
     return fn
+
+
+def _records_in_containers(fn, recs, parents):
+    """N15b: instances of an artefact NamedTuple that live in a local list (`cache = [K(None, None)] * n; cache[i] = K(f, s); cache[i].frame`)
+    become plain tuples: `K(a, b)` -> `(a, b)`, `<K-typed>.field` -> `<K-typed>[index]`. A NamedTuple is a tuple, so indexing, slicing,
+    comparison and unpacking are unchanged; done only when every K-typed value of the function is accounted for: record locals are
+    bound only from constructors / elements of record lists, attribute access is by field, and neither the records nor their lists
+    escape (argument, return, yield, attribute store, method call)."""
+    def bindings(name):
+        out = []
+        for n in ast.walk(fn):
+            if isinstance(n, ast.Assign) and any(isinstance(t, ast.Name) and t.id == name for t in n.targets):
+                out.append(n.value)
+            elif isinstance(n, ast.AnnAssign) and isinstance(n.target, ast.Name) and n.target.id == name and n.value is not None:
+                out.append(n.value)
+            elif isinstance(n, ast.NamedExpr) and isinstance(n.target, ast.Name) and n.target.id == name:
+                out.append(n.value)
+            elif isinstance(n, ast.Name) and n.id == name and isinstance(n.ctx, ast.Store):
+                par = parents.get(id(n))
+                if not isinstance(par, (ast.Assign, ast.AnnAssign, ast.NamedExpr)) or (isinstance(par, ast.Assign) and n not in par.targets):
+                    out.append(None)           # bound in another way (loop target, unpacking, with ...)
+        return out
+    names = {n.id for n in ast.walk(fn) if isinstance(n, ast.Name) and isinstance(n.ctx, ast.Store)}
+    rec, cont = {}, {}
+
+    def ktype(e):
+        if isinstance(e, ast.Call) and isinstance(e.func, ast.Name) and e.func.id in recs and not any(isinstance(a, ast.Starred) for a in e.args) and all(k.arg for k in e.keywords):
+            return e.func.id
+        if isinstance(e, ast.Name):
+            return rec.get(e.id)
+        if isinstance(e, ast.NamedExpr):
+            return ktype(e.value)
+        if isinstance(e, ast.Subscript) and not isinstance(e.slice, ast.Slice):
+            return ctype(e.value)
+        return None
+
+    def ctype(e):
+        if isinstance(e, ast.Name):
+            return cont.get(e.id)
+        if isinstance(e, ast.List) and e.elts:
+            ks = {ktype(x) for x in e.elts}
+            return next(iter(ks)) if len(ks) == 1 and None not in ks else None
+        if isinstance(e, ast.BinOp) and isinstance(e.op, ast.Mult):
+            return ctype(e.left) or ctype(e.right)
+        if isinstance(e, ast.ListComp):
+            return ktype(e.elt)
+        if isinstance(e, ast.IfExp):
+            a, b = ctype(e.body), ctype(e.orelse)
+            none = lambda x: isinstance(x, ast.Constant) and x.value is None  # noqa: E731
+            if a and (b == a or none(e.orelse)):
+                return a
+            if b and none(e.body):
+                return b
+        return None
+    changed = True
+    while changed:
+        changed = False
+        for nm in names:
+            bs = bindings(nm)
+            if not bs or None in bs:
+                continue
+            if nm not in rec:
+                ks = {ktype(b) for b in bs}
+                if len(ks) == 1 and None not in ks:
+                    rec[nm] = next(iter(ks))
+                    changed = True
+            if nm not in cont and nm not in rec:
+                real = [b for b in bs if not (isinstance(b, ast.Constant) and b.value is None) and not (isinstance(b, ast.List) and not b.elts)]
+                ks = {ctype(b) for b in real}
+                if real and len(ks) == 1 and None not in ks:
+                    cont[nm] = next(iter(ks))
+                    changed = True
+    if not cont:
+        return
+    # element stores into the containers must be records too
+    for n in ast.walk(fn):
+        if isinstance(n, ast.Subscript) and isinstance(n.ctx, ast.Store) and isinstance(n.value, ast.Name) and n.value.id in cont:
+            par = parents.get(id(n))
+            if not (isinstance(par, ast.Assign) and ktype(par.value) == cont[n.value.id]):
+                return
+    # no escapes, attribute access by field only
+    for n in ast.walk(fn):
+        if isinstance(n, ast.Name) and isinstance(n.ctx, ast.Load) and (n.id in rec or n.id in cont):
+            par = parents.get(id(n))
+            if isinstance(par, ast.Call) and n in par.args and not (isinstance(par.func, ast.Name) and par.func.id in ("len", "bool", "tuple", "list", "isinstance")):
+                return
+            if isinstance(par, (ast.Return, ast.Yield, ast.YieldFrom, ast.keyword, ast.Starred)):
+                return
+            if isinstance(par, ast.Assign) and par.value is n and any(isinstance(t, ast.Attribute) for t in par.targets):
+                return
+    for n in ast.walk(fn):
+        if isinstance(n, ast.Attribute) and ktype(n.value) and n.attr not in recs[ktype(n.value)][0]:
+            return
+
+    class T(ast.NodeTransformer):
+        def visit_Attribute(t, n):
+            k = ktype(n.value)
+            t.generic_visit(n)
+            if k and isinstance(n.ctx, ast.Load):
+                return _loc(ast.Subscript(value=n.value, slice=ast.Constant(value=recs[k][0].index(n.attr)), ctx=ast.Load()), n)
+            return n
+
+        def visit_Call(t, n):
+            k = ktype(n)
+            t.generic_visit(n)
+            if k and isinstance(n, ast.Call):
+                fields, defaults = recs[k]
+                vals = dict(zip(fields, n.args))
+                for kx in n.keywords:
+                    vals[kx.arg] = kx.value
+                elts = [vals.get(f_, defaults.get(f_)) for f_ in fields]
+                if all(e is not None for e in elts):
+                    return _loc(ast.Tuple(elts=elts, ctx=ast.Load()), n)
+            return n
+    used = set(cont.values())
+    T().visit(fn)
 
 
 def _scalarise_records(model, rel, fn):
@@ -320,6 +458,7 @@ def _scalarise_records(model, rel, fn):
                 bad.add(n.id)
         elif isinstance(n, ast.arg):
             bad.add(n.arg)
+    _records_in_containers(fn, recs, parents)
     todo = {v: next(iter(ks)) for v, ks in cands.items() if v not in bad and len(ks) == 1}
     for v, k in list(todo.items()):
         fields, defaults = recs[k]
@@ -854,7 +993,14 @@ class Inliner:
                     return ast.unparse(b_[0].value)      # only plain reads (`image = self._image`), never calls, never the callee's parameters
                 return _why(504)
             # re-executing the caller's own (sole) definition of a name is harmless: `image = self._image` in both
-            same_def = {n_ for n_ in clash if sole_binding(body, n_) is not None and sole_binding(root.body, n_) == sole_binding(body, n_)}
+            # ... provided what it reads cannot change in between: no name or attribute it mentions is stored anywhere in the caller
+            stored_names = {x.id for x in caller_nodes if isinstance(x, ast.Name) and isinstance(x.ctx, (ast.Store, ast.Del))}
+            stored_attrs = {ast.unparse(x) for x in caller_nodes if isinstance(x, ast.Attribute) and isinstance(x.ctx, (ast.Store, ast.Del))}
+
+            def stable(src):
+                e_ = ast.parse(src, mode="eval").body
+                return not any((isinstance(x, ast.Name) and x.id in stored_names) or (isinstance(x, ast.Attribute) and ast.unparse(x) in stored_attrs) for x in ast.walk(e_))
+            same_def = {n_ for n_ in clash if sole_binding(body, n_) is not None and sole_binding(root.body, n_) == sole_binding(body, n_) and stable(sole_binding(body, n_))}
             clash -= same_def
             if same_def:
                 # ... and redundant: the callee's copy of the definition is dropped
@@ -998,7 +1144,7 @@ class Inliner:
         for n, cond in order(root, False):
             if isinstance(n, ast.Call):
                 c = self._candidate(n, closures)
-                if c is not None and not cond and n is not root and _single_expr(c[0]) is None:
+                if c is not None and not cond and (n is not root or field == "test") and _single_expr(c[0]) is None:
                     found.append((n, c))
                     break
                 fnm = n.func.id if isinstance(n.func, ast.Name) else (n.func.attr if isinstance(n.func, ast.Attribute) else None)
@@ -1092,7 +1238,7 @@ class Inliner:
             def visit_FunctionDef(t, n):
                 return n
 
-            visit_Lambda = visit_FunctionDef
+            # (lambda bodies are visited: a helper called inside a lambda - e.g. a property getter - is replaced by its expression there)
 
             def visit_Call(t, n):
                 t.generic_visit(n)
